@@ -27,7 +27,7 @@ func out(call, o string, path ...string) mrogen.Ref {
 	return mrogen.Ref{Call: call, Out: o, Path: path}
 }
 func lit(v any, t ty) mrogen.Lit { return mrogen.Lit{V: v, T: t} }
-func num(n int) json.Number     { return json.Number(fmt.Sprint(n)) }
+func num(n int) json.Number      { return json.Number(fmt.Sprint(n)) }
 
 var (
 	tInt    = ty{Base: "int"}
@@ -37,6 +37,15 @@ var (
 )
 
 func knownPresent(t *testing.T, key string, build func(a int) *mrogen.Program) {
+	knownPresentWith(t, key, build, false)
+}
+
+// knownPresentWith optionally also runs the C16 fork-invocation check.
+func knownPresentWith(t *testing.T, key string, build func(a int) *mrogen.Program, withInvocations bool) {
+	if withInvocations {
+		installInvocationCheck()
+		defer func() { invocationCheck = nil }()
+	}
 	root := workRoot(t)
 	collectMode = true
 	defer func() { collectMode = false }()
